@@ -56,7 +56,7 @@ def run(ctx):
         if f.get("model") and canon_summary(impl[0]) != f["model"]:
             rep.add_failure("cond.order", f["case"], impl[0], f["model"], "replayed")
         return
-    n = 500 if tier == "quick" else 10000
+    n = 350 if tier == "quick" else 10000
 
     def tweak(c, r):
         c["flags"] |= 0x10000
@@ -64,7 +64,7 @@ def run(ctx):
             c["max_cost"] = 11000000000
         if r.chance(1, 2):
             c["flags"] |= r.choice(STRICT) | r.choice(STRICT)
-    g, cases, consts_hex, valid = condlib.make_cases(rng.fork("cases"), n, None, tweak)
+    g, cases, consts_hex, valid = condlib.make_cases(rng.fork("cases"), n, None, tweak, matrix=True)
     lines = [c["line"] for c in cases]
     impl, model = condlib.run_both(lines, ctx["have_model"])
     condlib.stream_stats(rep, "cond.strict", cases, impl)
